@@ -190,8 +190,18 @@ Definition rat_agree (c : c06_case) (wu : wall * option Q) : bool :=
   | _, _ => true      (* transcendental kinds: certified separately; undefined: not compared *)
   end.
 
+(* the ventilation rate the U-value calculation uses is the building-wide flow over the net volume of the
+   habitable spaces inside the envelope, multipliers included (Geometry.vent_model); with unique space ids *)
+Definition vent_agrees (c : c06_case) : bool :=
+  if negb (Nat.eqb (length (space_keys (c06_model c))) (length (m_spaces (c06_model c)))) then true
+  else match c06_vent c, vent_model (c06_model c) with
+       | Some a, Some b => close_rel (1 # 1000) (1 # 10000) a b
+       | None, _ | _, None => true
+       end.
+
 Definition agree_C06 (c : c06_case) : N :=
-  if negb (Nat.eqb (length (m_walls (c06_model c))) (length (c06_u c))) then 2%N
+  if negb (vent_agrees c) then 3%N
+  else if negb (Nat.eqb (length (m_walls (c06_model c))) (length (c06_u c))) then 2%N
   else if forallb (rat_agree c) (walls_u (m_walls (c06_model c)) (c06_u c)) then 0%N else 1%N.
 
 (* the requests to certify over R: (wall index, kind parameters, implementation value) *)
